@@ -90,8 +90,8 @@ def run(payload):
             fail("block larger than block size")
           if 0 < b < shape[a] and len(s) != -(-shape[a] // b):
             fail("block count != ceil(d/b)")
-        if len(parts):
-          r["first_block_flat"] = [int(x) for x in np.asarray(parts[-1]).ravel()[:8]]
+        if n <= 64:
+          r["blocks_flat"] = [[int(x) for x in np.asarray(p).ravel()] for p in parts]
       elif kind == "precond":
         shape, b, m = case["shape"], case["block"], case["merge"]
         ptype, cr = case["ptype"], case["cr"]
